@@ -105,7 +105,14 @@ Definition rr_push_set (k : knode) (v : vqip) : option (knode * vqip) :=
   match push_distributed S P maxiter (Some [T_NODE; T_RIVER; T_WASTE]) (k_outs k) spill with
   | None => None
   | Some (outs', reply, _) =>
-      Some (k_with k t2 outs' (k_ins k) (Qred (k_envsat k + (vol spill - vol reply))), reply)
+      let envsat := Qred (k_envsat k + (vol spill - vol reply)) in
+      (* a reservoir that was above its capacity spilled that too: what could not go downstream stays,
+         at most the push itself is handed back *)
+      if Qlt_le_dec (vol v) (vol reply) then
+        let surplus := vchange reply (vol reply - vol v) in
+        let '(t3, _) := t_push t2 surplus true in
+        Some (k_with k t3 outs' (k_ins k) envsat, vsub reply surplus)
+      else Some (k_with k t2 outs' (k_ins k) envsat, reply)
   end.
 Definition rr_push_check (k : knode) (ov : option vqip) : vqip :=
   let downstream := c_avail (get_connected S P true (Some [T_NODE; T_RIVER; T_WASTE]) (k_outs k)) in
